@@ -126,9 +126,16 @@ def run():
             if t['p'] in AFTER:
                 order = 'AB'
             s0 = len(mlines)
-            mlines += ['NEW x -'] + prel + seq + t['bat']
+            mlines += ['NEW %s -' % os.path.join(base, 'serial%d' % len(mmeta))] + prel + seq + t['bat']
             mmeta.append((s0 + 1 + len(prel), order))
-        mo = c.model.run(mlines)
+        # the serial execution on the real store is the reference; the model's serial execution is
+        # compared with it (correspondence; queries are C05's business)
+        mo_model = c.model.run(mlines)
+        mo = [strip_now(x) for x in c.worker.run(mlines)]
+        for l, x, y in zip(mlines, mo, mo_model):
+            if x != y and not l.startswith('FND'):
+                c.violation('corr', 'serial execution: %s: impl %s model %s' % (l[:40], x[:40], y[:40]), [l], found=False)
+                break
         for t, (mi, order) in zip(meta, mmeta):
             r = out[t['ci']]
             rep = lines[t['start']:t['ci'] + 1]
